@@ -327,6 +327,10 @@ CLAIM = {'text': "Decides four structural clauses behind 'every run is a well-fo
 RE = "run_engine.py"
 BU = "bundlers.py"
 MUTANTS = [
+    ("FailedPause made a control exception with a status RunStop does not have (seed C01-c)",
+     [("utils/__init__.py", "class FailedPause(Exception):\n    pass\n", "class FailedPause(RunEngineControlException):\n    exit_status = \"aborted\"\n")], "C01.D1"),
+    ("new control exception with an illegal status",
+     [("utils/__init__.py", "class RunEngineInterrupted(Exception):\n    pass\n", "class RequestHalt(RequestStop):\n    exit_status = \"halted\"\n\n\nclass RunEngineInterrupted(Exception):\n    pass\n")], "C01.D1"),
     ("cleanup stops closing runs after the first failure",
      [(RE, '                    except Exception:\n                        self.log.error("Failed to close run %r.", current_run)',
        '                    except Exception:\n                        self.log.error("Failed to close run %r.", current_run)\n                        break')],
@@ -379,6 +383,7 @@ MUTANTS = [
      "C01.D4"),
 ]
 BENIGN = [
+    ("new control exception with a legal status", [("utils/__init__.py", "class RunEngineInterrupted(Exception):\n    pass\n", "class RequestFail(RunEngineControlException):\n    exit_status = \"fail\"\n\n\nclass RequestFail2(RequestFail):\n    pass\n\n\nclass RunEngineInterrupted(Exception):\n    pass\n")]),
     ("membership test instead of the sentinel lookup in _save",
      [(RE, '        if (\n            current_run := self._run_bundlers.get(run_key, key_absence_sentinel := object())\n        ) is key_absence_sentinel:\n            # sanity check',
        '        if run_key not in self._run_bundlers:\n            # sanity check'),
